@@ -143,7 +143,7 @@ def _dot(a, b):
 
 
 for _branch in ("bound", "unbound"):
-    @P.task("from_orbit.relations.%s" % _branch, fn="reb_particle_from_orbit_err", polyid_s=120)
+    @P.task("from_orbit.relations.%s" % _branch, fn="reb_particle_from_orbit_err", polyid_s=20)
     def _(v, branch=_branch):
         G, prim, m, a, e, inc, Om, om, f, errc, errp = _forward_inputs(v)
         sf, cf = _valid_classical(v, G, prim, m, a, e, f, branch)
@@ -284,6 +284,8 @@ for _br in ("elliptic", "hyperbolic"):
         f = v.call("reb_M_to_f", e, M)
         v.prove("range", z3.And(f >= 0, f < R(PI2)))
 
+P.not_decided.append("reb_E_to_f: the half-angle relation tan(f/2) = sqrt((1+e)/(1-e)) tan(E/2) (resp. tanh for e>1) is not decided "
+                     "(atan/tanh have no axioms in the engine); only definedness and the range [0,2pi) of the result are proved")
 P.not_decided.append("reb_M_to_E: convergence of the Newton iteration (that the loop is left through `break` within 100 "
                      "steps for every (e,M)) is not decided; only the residual bound on exit through `break` is proved")
 
@@ -615,7 +617,7 @@ def no_hyps(ob):
     return ob
 
 
-@P.task("from_particle.relations.core", fn="reb_orbit_from_particle_err", polyid_s=60)
+@P.task("from_particle.relations.core", fn="reb_orbit_from_particle_err", polyid_s=20)
 def _(v):
     """Defining relations of d, v, a, h, hvec, evec, e, n, P, rhill (M&D 2.134-2.138; vis-viva; e = v x h/mu - r/|r|;
     Kepler III), for non-parabolic, non-error states."""
@@ -645,9 +647,20 @@ def _(v):
     cut(v, "mu_positive", mu > 0, order=DEF_ORDER)
     focus(v.prove("a_nonzero", o.a != 0, order=("z3",)))
     v.assume(o.a != 0)
+    # o.n = sign(a) * y with y = sqrt(|mu/a^3|): first the sign-free facts, then the two cases
+    ysq = _find_apps(o.n, "m_sqrt")
+    ysq = [t for t in ysq if t.get_id() not in {x.get_id() for x in _find_apps(o.a, "m_sqrt")}]
+    v.ground("n.one_sqrt", len(ysq) == 1, "expected one sqrt in o.n besides the distance, found %d" % len(ysq))
+    yn = ysq[0]
     for nm, cond, sgn in (("bound", o.a > 0, 1), ("unbound", o.a < 0, -1)):
+        c1 = z3.Implies(cond, o.n == sgn * yn)
+        generalize(v, focus(v.prove("n.kepler3.%s.sign" % nm, c1, order=("z3",)), extra=[yn]), [yn, mu, o.a])
+        v.assume(c1)
+        c2 = z3.Implies(cond, yn * yn * o.a * o.a * o.a == sgn * mu)
+        generalize(v, focus(v.prove("n.kepler3.%s.square" % nm, c2, order=("z3",)), extra=[yn]), [yn, mu, o.a])
+        v.assume(c2)
         fact = z3.Implies(cond, z3.And(sgn * o.n > 0, o.n * o.n * o.a * o.a * o.a == sgn * mu))
-        generalize(v, focus(v.prove("n.kepler3." + nm, fact, order=("z3",))), [mu, o.a])
+        small_hyps(generalize(v, focus(v.prove("n.kepler3." + nm, fact, order=("z3",)), extra=[yn]), [yn, o.n, mu, o.a]), 40)
         v.assume(fact)
     generalize(v, focus(v.prove("P", o.n * o.P == R(PI2), order=("z3",))), [o.n, o.a])
     # Hill radius a (m/(3M))^(1/3)
@@ -786,7 +799,7 @@ def _forward_contract_facts(mu, a, e, trig, d, w, Hs):
 
 
 for _branch in ("bound", "unbound"):
-    @P.task("roundtrip.classical.%s" % _branch, fn="reb_orbit_from_particle_err", polyid_s=120)
+    @P.task("roundtrip.classical.%s" % _branch, fn="reb_orbit_from_particle_err", polyid_s=20)
     def _(v, branch=_branch):
         """Modular round trip: a particle that satisfies the (proved) postconditions of reb_particle_from_orbit_err for
         elements (a, e, inc, Omega, omega, f) is read back by reb_orbit_from_particle_err with the same a, e, |h|,
